@@ -485,8 +485,8 @@ def long_layer(run, rng, tier, model):
                 run.count("cmp_" + syn)
                 if r.get(syn) == ref.get(syn):
                     continue
-                if syn == "coer" and all(r.get(x) == ref.get(x) for x in ("der", "cxer", "cper")) and \
-                   r["coer"] == digest(lset_coer(c["elem"], c["fixed"], lset_values(n, *c["abm"], order))):
+                if syn == "coer" and r["coer"] == digest(lset_coer(c["elem"], c["fixed"], lset_values(n, *c["abm"], order))):
+                    # exactly the members in memory order after the quantity: the open finding, whatever the other encoders do
                     run.known_finding("C06-oer-setof-order", l)
                     continue
                 run.violation("oracle:canonical(%s)" % syn, dict(base, what="two memory orders of the members of one SET OF value give different %s output (length:crc32)" % syn.upper(),
@@ -803,6 +803,8 @@ def main(tier):
           "extraction: ExtrOcamlBasic only; OCaml 4.13.1", "lib/modgen.py (generator, effective tags), lib/c06_util.py (BER writer, permutations, XER variants, hand-written modules)",
           "harness/moddrv.c + harness/moddrv_c06.inc (in-memory mutator walks the structure through the descriptor tables); lib/modbuild.py; gcc + ASan/UBSan",
           "qsort is modelled as insertion sort: the theorems show the result does not depend on which sorting algorithm is used only where the order is antisymmetric on the keys"]
+    # violations with a failing input first (vlib prints one line per kind among the first 20)
+    run.violations.sort(key=lambda v: (bool(v.get("no_failing_input_found")), v["kind"].startswith("correspondence")))
     if os.environ.get("C06_DEBUG"):
         import collections
         cnt = collections.Counter((v["kind"], v.get("asn1c_options"), v.get("kind_of_group", v.get("type"))) for v in run.violations)
